@@ -271,3 +271,124 @@ def C07(ck):
         _reg_hist(ck, 60 if ck.tier == "quick" else 1000)
     finally:
         _rm(dom, wire, valid)
+
+
+def _ev_hist(ck, n, allalgs=False, depth=35):
+    cfg = "Sim_Evidence_all.cfg" if allalgs else "Sim_Evidence.cfg"
+    hist, nh = vlib.gen_sim("Sim_Evidence", cfg, "ehist", n, depth, ck.seed, procs=8 if n < 2000 else 16)
+    dom = vlib.gen_export("Gen_Claims", "Gen_Claims.cfg", "domains")
+    try:
+        stats, res = ck.run_and_judge(["ev-hist", "-seed", ck.seed, "-in", hist, "-in2", dom, "-out", ck.path("eh")], "Trace_Evidence", par=12, xmx="3g")
+        tot = {}
+        ops = set()
+        for v in res["verdicts"]:
+            ops |= set(v.get("ops", []))
+            for k in ("verifyOK", "verifyFail", "signOK", "signFail"):
+                tot[k] = tot.get(k, 0) + v.get(k, 0)
+        if not {"SetClaims", "Attach", "Verify", "ValidateAndSign", "Sign", "UnmarshalCOSE"} <= ops or min(tot.values()) == 0:
+            raise Machinery("evidence histories lack operations / outcomes: %s %s" % (sorted(ops), tot))
+        ck.extra.update(histories=nh, **tot)
+    finally:
+        _rm(hist, dom)
+
+
+def C19(ck):
+    ck.rule = ("Evidence histories of 30 operations simulated by TLC from spec/Sim_Evidence.tla (SetClaims valid / invalid, attach, "
+               "Sign / ValidateAndSign with good, erroring, empty-signature, junk-signature and unsupported-algorithm signers, decode "
+               "of honest / payload-swapped / header-swapped / junk-signature / empty-signature / garbage-payload / nil-payload / "
+               "non-COSE tokens with every honest signature pre-available, Verify with either key), replayed on one real Evidence with "
+               "fresh real keys (ES256 EdDSA PS256 in quick, all seven in thorough); every step judged against PsaEvidence's step "
+               "functions, the binding clause also directly; MC_Evidence proves Binding / NoForgery / FailedOpNoToken / "
+               "FailedSignThenVerifyFails / GoodSignAlwaysSucceeds / TwoSignsTwoTokens on ALL reachable states of the bounded model "
+               "(finite => histories of any length); non-trivial = every step")
+    ck.assumptions = TRUST + ["VerifMessage hook exposes the envelope; symbolic signatures: a signature's bytes are projected to Sig(k, a, p) "
+                              "through the table of signatures the harness's honest signers produced"]
+    ck.add_model(vlib.mc("MC_Evidence", "MC_Evidence_replay.cfg"))
+    ck.add_model(vlib.mc("MC_Evidence", "MC_Evidence_small.cfg" if ck.tier == "quick" else "MC_Evidence_full.cfg", timeout=3000))
+    _ev_hist(ck, 600 if ck.tier == "quick" else 20000, allalgs=ck.tier != "quick")
+
+
+def C02(ck):
+    ck.rule = ("tokens signed by the library with fresh real keys (ES256, EdDSA, PS256 in quick; all seven algorithms in thorough) x 2 "
+               "claims-sets: every single-bit flip, truncations, extension, seeded random multi-byte edits (400 / 8000 per token), every "
+               "splice of protected x payload x signature across keys, algorithms and claims-sets, re-encoded protected headers "
+               "(non-preferred integer, indefinite map), alg only in the unprotected bucket, nil payload, empty signature; each is "
+               "decoded and verified with the right and a wrong key; the presented bytes are projected by the independent reader "
+               "(payload id, protected-header bytes, signature id via the table of honest signatures) and judged against "
+               "PsaEvidence!VerifyOKm; plus Verify steps of TLC-simulated Evidence histories; MC_Evidence proves NoForgery on all "
+               "reachable states; non-trivial = every tampered token")
+    ck.assumptions = TRUST + ["perfect cryptography in the model; go-cose's arithmetic is exercised, not modelled"]
+    ck.add_model(vlib.mc("MC_Evidence", "MC_Evidence_replay.cfg"))
+    ck.add_model(vlib.mc("MC_Evidence", "MC_Evidence_small.cfg" if ck.tier == "quick" else "MC_Evidence_full.cfg", timeout=3000))
+    dom = vlib.gen_export("Gen_Claims", "Gen_Claims.cfg", "domains")
+    try:
+        stats, res = ck.run_and_judge(["ev-tamper", "-seed", ck.seed, "-tier", ck.tier, "-chunk", 20000, "-in", dom, "-out", ck.path("et")],
+                                      "Trace_Evidence", par=12, xmx="3g")
+        ok = sum(v.get("verifyOK", 0) for v in res["verdicts"])
+        if ok == 0:
+            raise Machinery("no honest token verified: vacuous")
+        ck.extra.update(by_kind=stats.get("by_kind"), verified=ok)
+    finally:
+        _rm(dom)
+    _ev_hist(ck, 150 if ck.tier == "quick" else 5000, allalgs=ck.tier != "quick")
+
+
+def C03(ck):
+    ck.rule = ("the valid claims-sets of spec/Gen_Valid.tla (every 40th in quick, every 3rd in thorough; built through setters, as "
+               "literals, by decoding; extension profile X2) x algorithms (ES256 EdDSA PS256 in quick, all seven in thorough) with fresh "
+               "keys: SetClaims, ValidateAndSign (Sign for every 5th), token parsed by the independent reader, "
+               "DecodeAndValidateEvidenceFromCOSE, Verify on both Evidence objects with the right and a wrong key; judged by "
+               "Trace_Wire!SignRTOK (tag 18 / 4-array / protected = {1: alg} / payload byte-identical to the validated encoding and of "
+               "the profile's wire format / decoded claims equal claim for claim / both verifications succeed); plus TLC-simulated "
+               "Evidence histories (re-signing after decode, two signs); non-trivial = every (set, algorithm) pair")
+    ck.assumptions = TRUST + ["go-cose's arithmetic is exercised, not modelled"]
+    ck.add_model(vlib.mc("MC_Evidence", "MC_Evidence_replay.cfg"))
+    valid = vlib.gen_export("Gen_Valid", "Gen_Valid.cfg", "valid")
+    try:
+        ck.run_and_judge(["ev-signrt", "-seed", ck.seed, "-tier", ck.tier, "-n", _stride(ck, 40, 3), "-reg", "X2", "-chunk", 3000,
+                          "-in", valid, "-out", ck.path("sr")], "Trace_Wire", par=12, xmx="3g")
+    finally:
+        _rm(valid)
+    _ev_hist(ck, 200 if ck.tier == "quick" else 5000, allalgs=ck.tier != "quick")
+
+
+def C08(ck):
+    ck.rule = ("claims-sets of the C01 enumeration (bases, all singles on three bases, pairs (1/5 in quick), component lists, random "
+               "products), valid and invalid, through the seven validating entry points - SetClaims, ValidateAndEncodeClaimsToCBOR / "
+               "JSON, ValidateAndSign, DecodeAndValidateClaimsFromCBOR / JSON, DecodeAndValidateEvidenceFromCOSE - next to Validate() and "
+               "the non-validating sibling; judged by Trace_Wire!GatesOK against PsaClaims!Valid; the signing gates also inside "
+               "TLC-simulated Evidence histories (MC_Evidence: GateNeverPassesInvalid); non-trivial = invalid set")
+    ck.assumptions = TRUST
+    ck.add_model(vlib.mc("MC_Evidence", "MC_Evidence_replay.cfg"))
+    ck.add_model(vlib.mc("MC_Claims", "MC_Claims_decoded.cfg"))
+    dom = vlib.gen_export("Gen_Claims", "Gen_Claims.cfg", "domains")
+    try:
+        ck.run_and_judge(["gates", "-seed", ck.seed, "-tier", ck.tier, "-chunk", 3000, "-in", dom, "-out", ck.path("ga")], "Trace_Wire",
+                         par=12, xmx="3g")
+    finally:
+        _rm(dom)
+    _ev_hist(ck, 300 if ck.tier == "quick" else 3000)
+
+
+def C20(ck):
+    ck.rule = ("envelopes assembled by the independent encoder: every tag 0..30 and none (minimal and 1/2/4/8-byte encodings), more tags "
+               "(17 Mac0, 98 Sign, 61, 55799), doubly tagged, array lengths 0..6, each of the four elements replaced by each of 24 item kinds "
+               "(other types, null, empty, wrapped / double-wrapped payload, non-map payload, two maps, indefinite string), tagged and "
+               "untagged, pairs of replacements (1/6 in quick, all in thorough), trailing bytes, indefinite array, map envelope, the four "
+               "TF-M vectors (Sign1 and Mac0); DecodeEvidenceFromCOSE and Evidence.UnmarshalCOSE; judged against PsaEvidence!EnvelopeOK "
+               "(success => tag 18, 4 elements of the right types, non-empty signature, nothing after, map payload); also the C02 tamper "
+               "run; non-trivial = every envelope")
+    ck.assumptions = TRUST + ["the independent CBOR encoder / reader harness/cborx"]
+    ck.add_model(vlib.mc("MC_Evidence", "MC_Evidence_replay.cfg"))
+    dom = vlib.gen_export("Gen_Claims", "Gen_Claims.cfg", "domains")
+    try:
+        stats, res = ck.run_and_judge(["ev-envelope", "-seed", ck.seed, "-tier", ck.tier, "-in", dom, "-in2", vlib.REPO + "/testvectors/tf-m",
+                                       "-out", ck.path("en")], "Trace_Evidence", par=12, xmx="3g")
+        ok = sum(v.get("verifyOK", 0) for v in res["verdicts"])
+        if ok == 0:
+            raise Machinery("no envelope decoded: vacuous")
+        ck.extra.update(decoded=ok)
+        ck.run_and_judge(["ev-tamper", "-seed", ck.seed, "-tier", ck.tier, "-chunk", 20000, "-in", dom, "-out", ck.path("et")],
+                         "Trace_Evidence", par=12, xmx="3g")
+    finally:
+        _rm(dom)
